@@ -11,7 +11,7 @@ from harness.props import common, c02
 LEVEL = "proof"
 
 ATOMS = [("ge", 0, 1), ("ge", 1, 1), ("pz", 0), ("pz", 2), ("raises", 1), ("in", "m.a"), ("in", "#m.a.x"), ("in", "b"), ("in", "x"),
-         ("in", ".x"), ("in", ".a"), ("in", "a.x"), ("in", "#x"), ("in", "m"), ("in", ""),
+         ("in", ".x"), ("in", ".a"), ("in", "a.x"), ("in", "#x"), ("in", "m"), ("in", ""), ("in", "a"), ("in", "#m.a"),
          ("missing", 2)]
 
 
@@ -34,9 +34,12 @@ def formulas(depth, rng=None, cap=None):
 
 
 def guard_machine(g, position, g2):
-    """m: a(compound: x, y) | b | c | d.  Event E; candidate lists on a.x and on a; the guard under test at `position`."""
+    """m: a(compound: x, y) | b | c | ab.  Event E; candidate lists on a.x and on a; the guard under test at `position`.  The last
+    state's key has the key of `a` as a PREFIX (and `b` as a suffix): a stateIn that names `a` or `b` must not hold there (fifth-round
+    seeded change C06-D matched the target at the start of a path segment only).  Event F: the guard under test once more, on the
+    root, so that it is evaluated wherever the first event has taken the machine."""
     nodes = [Node(0, "m", None, "compound"), Node(1, "a", 0, "compound"), Node(2, "x", 1, "atomic"), Node(3, "y", 1, "atomic"),
-             Node(4, "b", 0, "atomic"), Node(5, "c", 0, "atomic"), Node(6, "d", 0, "atomic")]
+             Node(4, "b", 0, "atomic"), Node(5, "c", 0, "atomic"), Node(6, "ab", 0, "atomic")]
     nodes[0].children = [1, 4, 5, 6]; nodes[1].children = [2, 3]
     nodes[0].initial = 1; nodes[1].initial = 2
     am = AM(nodes, max_iter=5)
@@ -48,6 +51,7 @@ def guard_machine(g, position, g2):
     else:                  # on the ancestor, behind a guarded leaf candidate
         nodes[2].on.append(("E", [T(1, 2, 4, g2)]))
         nodes[1].on.append(("E", [T(2, 1, 5, g), T(3, 1, 6, None)]))
+    nodes[0].on.append(("F", [Trans(4, 0, "F", 5, guard=g, actions=[("mark", 4)])]))
     return am
 
 
@@ -142,7 +146,7 @@ def families(tier, rng):
     for i, g in enumerate(fs):
         for pos in (0, 1, 2):
             am = guard_machine(g, pos, g2s[(i + pos) % 3])
-            runs = [({0: a, 1: b}, [("E", "plain", 1), ("E", "plain", 2)]) for a, b in itertools.product((0, 2), (0, 1))]
+            runs = [({0: a, 1: b}, [("E", "plain", 1), (("E", "F")[(i + pos + a + b) % 2], "plain", 2)]) for a, b in itertools.product((0, 2), (0, 1))]
             opts = dict(probe_can=True, gspell=(i + pos) % 2, cond=((i // 2 + pos) % 2 == 1))
             cases.append((am, ("sync", "async")[(i + pos) % 2], runs, opts))
     return [("settle", settle_family(), "a guarded eventless transition on a compound state whose guard changes value between two "
